@@ -302,6 +302,123 @@ META_EXTRA = "DYNSLOT (dynamic-extent slots selected by the type's own pattern; 
 META = (META[0] + " " + META_EXTRA, META[1])
 
 
+def transpose_extents_rule(chk, db):
+    """TRANSP-EXT: transpose_extents(e) forwards exactly the dynamic extents of the transposed pattern, in its order: evaluated
+    as a decision procedure in the four static worlds (extent 0 dynamic?, extent 1 dynamic?)."""
+    fs = [f for f in db.by_q.get("etl::linalg::detail::transpose_extents", []) if f.get("body") is not None]
+    if not fs:
+        chk.analysis_broken("TRANSP-EXT: transpose_extents no longer exists")
+        return
+    f = fs[0]
+    construct = astx.sig(f)
+    chk.instance("TRANSP-EXT")
+    src = f["params"][0]["n"]
+    env = {}
+
+    class NM(Exception):
+        pass
+
+    def val(e, w):
+        """int / bool value of a static expression in world w = (dyn0, dyn1)"""
+        e = astx.strip_casts(e)
+        if e is None:
+            raise NM("empty")
+        k = e.get("k")
+        if k == "paren":
+            return val(e.get("e"), w)
+        if k == "bool":
+            return bool(e["v"])
+        if astx.int_value(e) is not None:
+            return astx.int_value(e)
+        if k == "ref" and e.get("n") in env:
+            return val(env[e["n"]], w)
+        if k == "ref" and e.get("n") == "dynamic_extent":
+            return "DYN"
+        if k == "un" and e["op"] == "!":
+            return not val(e["e"], w)
+        if k == "bin" and e["op"] in ("&&", "||"):
+            a, b = val(e["l"], w), val(e["r"], w)
+            return (a and b) if e["op"] == "&&" else (a or b)
+        if k == "bin" and e["op"] in ("==", "!="):
+            a, b = val(e["l"], w), val(e["r"], w)
+            r = (a == b)
+            return r if e["op"] == "==" else not r
+        if k == "call":
+            nm = astx.callee(e)[0]
+            if nm == "static_extent" and len(e["a"]) == 1:
+                i = astx.int_value(e["a"][0])
+                qual = (e["f"].get("qual") or "") + astx.show(astx.callee(e)[2], 30) if astx.callee(e)[2] is not None else (e["f"].get("qual") or "")
+                if i in (0, 1):
+                    if "result" in qual or "transpose_extents_t" in qual:
+                        i = 1 - i
+                    return "DYN" if w[i] else ("S%d" % i)
+            if nm == "rank_dynamic" and not e["a"]:
+                return int(w[0]) + int(w[1])
+            if nm == "rank" and not e["a"]:
+                return 2
+        raise NM("expression `%s`" % astx.show(e, 40))
+
+    def run(st, w):
+        k = st.get("k") if st else None
+        if st is None or k == "null":
+            return None
+        if k == "seq":
+            for c in st["s"]:
+                r = run(c, w)
+                if r is not None:
+                    return r
+            return None
+        if k == "decl":
+            for v in st["vars"]:
+                if "other" not in v and v.get("init") is not None:
+                    env[v["n"]] = v["init"]
+            return None
+        if k == "if":
+            br = st.get("then") if val(st["c"], w) else st.get("else")
+            return run(br, w) if br else None
+        if k == "return":
+            e = astx.strip_casts(st.get("e"))
+            args = e.get("a", []) if e is not None and e.get("k") in ("construct", "initlist", "call") else None
+            if args is None:
+                raise NM("return value")
+            if len(args) == 1 and args[0] is not None and args[0].get("k") == "initlist":
+                args = args[0]["a"]
+            out = []
+            for a in args:
+                a0 = astx.strip_casts(a)
+                if a0 is not None and a0.get("k") == "call" and astx.callee(a0)[0] == "extent" and len(a0["a"]) == 1 and \
+                        astx.strip_casts(astx.callee(a0)[2]).get("n") == src:
+                    out.append(astx.int_value(a0["a"][0]))
+                else:
+                    raise NM("argument `%s`" % astx.show(a, 30))
+            return ("ret", out)
+        if k in ("expr",):
+            return None
+        raise NM("statement %s" % k)
+
+    bad = None
+    unknown = None
+    for w in ((True, True), (True, False), (False, True), (False, False)):
+        # the transposed pattern is <E1, E0>: its dynamic extents, in order, are old extent 1 (if dynamic) then old extent 0
+        want = ([1] if w[1] else []) + ([0] if w[0] else [])
+        try:
+            r = run(f["body"], w)
+        except NM as ex:
+            unknown = str(ex)
+            break
+        got = r[1] if r else None
+        if got != want and bad is None:
+            bad = (w, got, want)
+    chk.obligation("TRANSP-EXT", construct, False if bad else (None if unknown else True), evaluations=4)
+    if bad:
+        w, got, want = bad
+        chk.violation("TRANSP-EXT", construct, "transposed-extents", "%s: for the pattern <%s, %s> the transposed extents are built from %s; "
+                      "the dynamic extents of <E1, E0> are %s" % (astx.loc(f), "dynamic" if w[0] else "static", "dynamic" if w[1] else "static",
+                                                                   ["e.extent(%s)" % i for i in (got or [])], ["e.extent(%d)" % i for i in want]), {"where": astx.loc(f)})
+    elif unknown:
+        chk.unknown_instance("TRANSP-EXT", construct, "not a modelled decision procedure: " + unknown)
+
+
 def run(chk, tier):
     db = D.load("checks")
     from ..rules import params as _PR
@@ -314,6 +431,7 @@ def run(chk, tier):
     guard_rule(chk, db)
     dynslot_rule(chk, db)
     transpose_rule(chk, db)
+    transpose_extents_rule(chk, db)
     rel.check(chk, db, ["_array/array.hpp", "_mdspan/layout_left.hpp", "_mdspan/layout_right.hpp", "_linalg/layout_transpose.hpp"])
     tus, info = gen.generate(tier == "quick")
     res = wit.compile_many(tus, compiler="g++", jobs=16)
